@@ -412,7 +412,7 @@ func (m *Model) Apply(op Op, now int64) Outcome {
 		return m.applyLink(op)
 	case "incr", "decr", "setCount":
 		return m.applyRc(op)
-	case "preCommit", "commitAction", "listen", "initIndexes":
+	case "preCommit", "commitAction", "listen", "initIndexes", "updateCtx":
 		return Outcome{OK: true}
 	}
 	panic("model: unknown op kind " + op.K)
@@ -1264,7 +1264,8 @@ func (m *Model) idInAnyStore(id string) bool {
 	_, p := m.People[id]
 	_, b := m.Badges[id]
 	_, n := m.Notes[id]
-	return p || b || n
+	_, d := m.Depts[id]
+	return p || b || n || d
 }
 
 // folderBelow: folder x lies in the sub-tree of folder root (root's descendants; root itself excluded).
